@@ -557,6 +557,18 @@ def order(
         scpath_discard(item)
         return item
 
+    # A data root that was removed during normalization is emitted together
+    # with the first of its former dependents (see ``requires_data_task``). If
+    # all of these dependents were stripped as non-task leaves afterwards,
+    # nothing below would ever reach it, i.e. it has to be emitted explicitly.
+    orphaned_data_tasks: set[Key] = set()
+    for stripped_leaf in list(result):
+        orphaned_data_tasks.update(requires_data_task.pop(stripped_leaf, ()))
+    for still_required in requires_data_task.values():
+        orphaned_data_tasks.difference_update(still_required)
+    for data_task in orphaned_data_tasks:
+        add_to_result(data_task)
+
     while len(result) < expected_len:
         crit_path_counter += 1
         assert not critical_path
